@@ -11,7 +11,7 @@ git apply "$D/patch.diff" || { echo "patch does not apply"; exit 2; }
 PYTHONPATH="$WT/src" timeout 300 /venv/bin/python demo.py > "$WT/demo_with.log" 2>&1; RC_WITH=$?
 PYTHONPATH="$WT/src" timeout 1500 /venv/bin/python -m pytest testing -q -p no:cacheprovider --deselect testing/test_gateway.py::TestPopenGateway::test_dont_write_bytecode > "$WT/tests.log" 2>&1
 TESTS=$(grep -E "passed|failed" "$WT/tests.log" | tail -1)
-FAILED=$(grep -E "^FAILED" "$WT/tests.log" | cut -c1-120 | tr '\n' ';')
+FAILED=$(grep -E "^(FAILED|ERROR)" "$WT/tests.log" | cut -c1-120 | tr '\n' ';')
 echo "$S demo_without_change_rc=$RC_WITHOUT demo_with_change_rc=$RC_WITH tests: $TESTS failed: $FAILED"
 tail -3 "$WT/demo_with.log" | cut -c1-200
 cd /verif
